@@ -37,3 +37,23 @@ Theorem write_free_loop_schedule_independent (ps : list prog) (m0 : mem) (sched 
 Proof.
   intros Hw Hin Hc. apply independent_iterations_commute; auto using write_free_independent.
 Qed.
+
+(** The legacy inner loop of push.pyx: two complete schedules, two work-lists (a lost update). *)
+Theorem legacy_push_worklist_refuted_pf :
+  exists s1 s2 m0,
+    complete legacy_push_two_neighbours s1 /\ complete legacy_push_two_neighbours s2 /\
+    fst (run s1 m0 (init_threads legacy_push_two_neighbours)) <>
+    fst (run s2 m0 (init_threads legacy_push_two_neighbours)) /\
+    independent_b legacy_push_two_neighbours = false.
+Proof.
+  exists [0;0;0;0;1;1;1;1], [0;0;0;1;1;1;0;1], [0;0;0]%Z.
+  split; [|split; [|split]].
+  - split.
+    + intros a H. simpl in H. simpl. intuition lia.
+    + intros a Ha. simpl in Ha. destruct a as [|[|a]]; [reflexivity | reflexivity | lia].
+  - split.
+    + intros a H. simpl in H. simpl. intuition lia.
+    + intros a Ha. simpl in Ha. destruct a as [|[|a]]; [reflexivity | reflexivity | lia].
+  - vm_compute. discriminate.
+  - vm_compute. reflexivity.
+Qed.
